@@ -699,6 +699,10 @@ func (p *Parser) GroupByClause() ([]ColumnReference, error) {
 			break
 		}
 		ret = append(ret, cr)
+		// the list is comma separated; a list without commas is accepted too
+		if p.match(COMMA) && !p.curType(IDENT) {
+			return ret, p.unexpectedTypeErr(IDENT)
+		}
 	}
 
 	return ret, nil
